@@ -22,6 +22,7 @@ DOCS = {
             [b"# Title\n" + b"".join(b"\nLine %d has trailing spaces.  \n" % i for i in range(400))]),
 }
 _SYSCALL = re.compile(r"^(\d+)\s+(\w+)\((.*)$")
+_RET = re.compile(r"=\s+(-?\d+)(?:\s|$)[^=]*$")
 
 
 def _run(target_dir, target, inject=None, log=None):
@@ -60,7 +61,8 @@ def _one(job):
                 for line in f:
                     m = _SYSCALL.match(line)
                     if m:
-                        calls.append((m.group(2), m.group(3)[:120]))
+                        rm = _RET.search(m.group(3))
+                        calls.append((m.group(2), m.group(3)[:120], int(rm.group(1)) if rm else None))
         return {"rc": rc, "data": data, "calls": calls, "err": err[-300:], "out": out[-200:]}
     finally:
         shutil.rmtree(d, ignore_errors=True)
@@ -81,9 +83,83 @@ def classify(name, data):
     return "OTHER"
 
 
+def observed(name, data):
+    """what is on disk, as the FileIO abstraction: part + the stages it can belong to"""
+    orig, stages = DOCS[name]
+    texts = [orig] + list(stages)
+    full = [k for k, t in enumerate(texts) if t == data]
+    if full:
+        return {"part": "full", "stages": full}
+    if data == b"":
+        return {"part": "empty", "stages": list(range(len(texts)))}
+    pre = [k for k, t in enumerate(texts) if t.startswith(data)]
+    if pre:
+        return {"part": "partial", "stages": pre}
+    return {"part": "other", "stages": []}
+
+
+def file_events(name, calls, upto=None):
+    """FileIO events of the system calls on the target (strace log of the dry run), optionally only those before the
+    occurrence `upto` = (syscall, k)"""
+    orig, stages = DOCS[name]
+    evs = [{"ev": "begin", "npasses": len(stages)}]
+    wfd, cum, nwb = None, 0, 0
+    counts = {}
+    for sc, args, ret in calls:
+        counts[sc] = counts.get(sc, 0) + 1
+        if upto is not None and (sc, counts[sc]) == upto:
+            break
+        fm = re.match(r"\s*(\w+)", args)
+        first = fm.group(1) if fm else ""
+        if sc in ("openat", "open", "creat") and ("O_WRONLY" in args or "O_RDWR" in args or "O_TRUNC" in args or sc == "creat"):
+            if ret is not None and ret >= 0:
+                wfd, cum = str(ret), 0
+                nwb += 1
+                evs.append({"ev": "open_trunc" if ("O_TRUNC" in args or sc == "creat") else "open_write_keep"})
+            else:
+                evs.append({"ev": "other"})
+        elif sc in ("write", "sendfile", "pwrite64", "writev") and wfd is not None and first == wfd:
+            if ret and ret > 0:
+                cum += ret
+                total = len(stages[min(nwb, len(stages)) - 1]) if nwb else 0
+                evs.append({"ev": "write", "last": cum == total, "cum": cum, "total": total})
+            else:
+                evs.append({"ev": "other"})
+        elif sc == "copy_file_range" and wfd is not None and len(args.split(",")) > 2 and args.split(",")[2].strip() == wfd:
+            if ret and ret > 0:
+                cum += ret
+                total = len(stages[min(nwb, len(stages)) - 1]) if nwb else 0
+                evs.append({"ev": "write", "last": cum == total, "cum": cum, "total": total})
+            else:
+                evs.append({"ev": "other"})
+        elif sc == "close" and wfd is not None and first == wfd:
+            wfd = None
+            evs.append({"ev": "close_w"})
+        elif sc in ("rename", "renameat", "renameat2") and ret == 0:
+            evs.append({"ev": "rename"})
+        elif sc in ("truncate", "ftruncate", "unlink", "unlinkat") and ret == 0:
+            evs.append({"ev": sc})                     # no action of FileIO: rejected
+        else:
+            evs.append({"ev": "other"})
+    return evs
+
+
+def model_check(ctx):
+    """spec/FileIO.tla: replace-by-rename keeps the target complete in every state; the pinned procedure does not (the
+    negative configurations MUST fail: they are the specification-level statement of the two known findings)"""
+    from . import tlc
+    for cfg, must_hold in (("MC_FileIO_rename.cfg", True), ("MC_FileIO_rename1.cfg", True), ("MC_FileIO_pinned.cfg", True),
+                           ("MC_FileIO_pinned_neg.cfg", False), ("MC_FileIO_levels_neg.cfg", False)):
+        r = tlc.run("mc/MC_FileIO", cfg, timeout=300)
+        ctx.ev.add_tlc("MC_FileIO %s (%s)" % (cfg, "invariants hold" if must_hold else "negative configuration: must violate, and does: %s" % r.violated), r)
+        if r.ok != must_hold:
+            raise Machinery("MC_FileIO %s: expected %s, TLC says %s %s" % (cfg, "success" if must_hold else "a violation", r.ok, r.violated))
+
+
 def enumerate_kills(ctx, tier):
     if shutil.which("strace") is None:
         raise Machinery("strace is not available")
+    model_check(ctx)
     names = ["fixable", "fix2"] if tier == "quick" else ["fixable", "fixtok", "fix2", "big"]
     dry = impl.pmap(_one, [(n, None) for n in names], procs=len(names))
     jobs = []
@@ -93,7 +169,7 @@ def enumerate_kills(ctx, tier):
         # system calls on the target from the first open-for-writing on
         seen_write_open = False
         counts = {}
-        for sc, args in r["calls"]:
+        for sc, args, _ret in r["calls"]:
             counts[sc] = counts.get(sc, 0) + 1
             if not seen_write_open and sc in ("openat", "open", "creat") and ("O_WRONLY" in args or "O_RDWR" in args or "O_TRUNC" in args):
                 seen_write_open = True
@@ -104,6 +180,36 @@ def enumerate_kills(ctx, tier):
             raise Machinery("crash enumeration: no write system call on the target was seen for %s" % n)
     res = impl.pmap(_one, jobs, procs=16)
     states = {}
+    # ---- the recorded system calls against spec/FileIO.tla: the complete runs, and every killed run up to its kill point
+    from . import tracev
+    dry_by_name = dict(zip(names, dry))
+    traces, tmeta = [], []
+    for n in names:
+        traces.append(file_events(n, dry_by_name[n]["calls"]) + [dict(observed(n, dry_by_name[n]["data"]), ev="end")])
+        tmeta.append((n, None))
+    for (n, inj), r in zip(jobs, res):
+        if r["rc"] in (-9, 137):
+            traces.append(file_events(n, dry_by_name[n]["calls"], upto=inj) + [dict(observed(n, r["data"]), ev="crash")])
+            tmeta.append((n, inj))
+    # binding self-test: a dropped close and a falsified observation must both be rejected
+    base = traces[0]
+    selftest = [[e for e in base if e["ev"] != "close_w"], base[:-1] + [dict(base[-1], part="partial")]]
+    traces += selftest
+    tr_, verdicts = tracev.validate("trace/Trace_FileIO", "Trace_FileIO.cfg", traces, "fileio")
+    if any(v["v"] != "REJECT" for v in verdicts[-2:]):
+        raise Machinery("Trace_FileIO accepted a corrupted trace: the specification is not bound to the recorded system calls")
+    traces, verdicts = traces[:-2], verdicts[:-2]
+    ctx.ev.add_tlc("Trace_FileIO (%d system-call traces: complete fix runs and runs killed at each call)" % len(traces), tr_)
+    ctx.ev.cov["traces_validated_against_impl"] += len(traces)
+    procs = {}
+    for (n, inj), t, v in zip(tmeta, traces, verdicts):
+        if v["v"] == "ACCEPT":
+            procs[v["what"]] = procs.get(v["what"], 0) + 1
+            continue
+        ev = t[int(v["pos"]) - 1] if 0 < int(v["pos"]) <= len(t) else {}
+        ctx.violation("fileio-trace-reject:%s:%s" % (ev.get("ev"), ev.get("part", "")),
+                      {"document": n, "kill_at": inj, "rejected_event": ev, "position": v["pos"], "model_state": v.get("state"), "trace": t[-8:]})
+    ctx.ev.parts["write_back_procedure_inferred_by_TLC"] = procs
     for (n, (sc, k)), r in zip(jobs, res):
         st = classify(n, r["data"])
         states[st] = states.get(st, 0) + 1
